@@ -195,7 +195,37 @@ class LF:
         raise Unsupported("collect() of a model frame")
 
     def collect_schema(self):
-        raise Unsupported("collect_schema() of a model frame")
+        # the model frame carries no column types: every pre-state column of the step harness has the same type (Int64, see the
+        # carve-outs of the obligations that use it), so two schemas are equal iff they list the same names in the same order
+        return _Schema(tuple(self.cols))
+
+    def cast(self, *a, **kw):
+        raise Unsupported("cast() of a model frame (the model carries no column types)")
+
+
+class _Schema:
+    def __init__(self, names):
+        self._names = names
+
+    def names(self):
+        return list(self._names)
+
+    def __iter__(self):
+        return iter(self._names)
+
+    def __len__(self):
+        return len(self._names)
+
+    def __contains__(self, n):
+        return n in self._names
+
+    def __eq__(self, other):
+        return isinstance(other, _Schema) and self._names == other._names
+
+    def __ne__(self, other):
+        return not self.__eq__(other)
+
+    __hash__ = None
 
 
 def _tup(x):
